@@ -14,5 +14,5 @@ PROP = {
     "stubs": ["clock = scripted sequence of symbolic readings", "rng = counter (non-zero, non-repeating)", "filter/completion/emitter = recorders",
               "Ctxt = array-backed harness implementation of the public trait (env::ArrCtxt)"],
     "assumptions": [],
-    "timeout": {"quick": 700, "thorough": 3600},
+    "timeout": {"quick": 900, "thorough": 5400},
 }
